@@ -30,7 +30,7 @@ structure PEnv where
 deriving DecidableEq, Repr
 
 inductive EnvVar
-  | xdg | home | other
+  | xdg | home | other | data   -- data = XDG_DATA_HOME
 deriving DecidableEq, Repr
 
 /-- an env file: KEY=VALUE lines (one per variable) -/
@@ -42,6 +42,7 @@ def applyAssign (e : PEnv) : EnvVar × EnvVal → PEnv
   | (.xdg, v) => if e.xdg = .unset then { e with xdg := v } else e
   | (.home, v) => if e.home = .unset then { e with home := v } else e
   | (.other, _) => e
+  | (.data, _) => e
 
 def applyEnvFile (e : PEnv) (f : EnvFile) : PEnv := f.foldl applyAssign e
 
@@ -149,5 +150,44 @@ def persistOfJSON : Option Bool → Bool
 def caddyfileLoad (cfg : Bytes) (opt : PersistOpt) (force accepted : Bool) : Load :=
   { cfg := cfg, force := force, accepted := accepted, nonNil := true,
     persistCfg := persistOfJSON (adaptPersist opt), allowPersist := true }
+
+/-! ### where the CA's files are: `caddy.DefaultStorage`
+
+`caddy.DefaultStorage = &certmagic.FileStorage{Path: AppDataDir()}` is a package variable like
+`ConfigAutosavePath`: initialised from the process environment, re-computed by `loadEnvFromFile`,
+and read by `provisionContext` at every load (`newCfg.storage = DefaultStorage` when the config
+names no storage).  The pki app of C14's first part lives under it. -/
+
+def applyDataAssign (d : EnvVal) : EnvVar × EnvVal → EnvVal
+  | (.data, v) => if d = .unset then v else d
+  | _ => d
+
+inductive DataDir
+  | fixed               -- XDG_DATA_HOME is not part of the case (a fixed private directory)
+  | xdgData (n : Nat)   -- $XDG_DATA_HOME/caddy
+  | homeShare (n : Nat) -- $HOME/.local/share/caddy
+  | cwd                 -- ./caddy
+deriving DecidableEq, Repr
+
+/-- `AppDataDir()` on Linux -/
+def appDataDir (data : Option EnvVal) (e : PEnv) : DataDir :=
+  match data with
+  | none => .fixed
+  | some (.dir n) => .xdgData n
+  | some _ =>
+    match e.home with
+    | .dir n => .homeShare n
+    | _ => .cwd
+
+/-- the data directory every load of a process uses: `AppDataDir()` of the environment after the
+    env files -/
+def storageDir (data : Option EnvVal) (e : PEnv) (files : List EnvFile) : DataDir :=
+  appDataDir (data.map fun d => files.foldl (fun d f => f.foldl applyDataAssign d) d) (files.foldl applyEnvFile e)
+
+/-- the root a process with the pki app ends up with: the stored one, else a new one (`fresh`) -/
+def useRoot (roots : DataDir → Option Nat) (dir : DataDir) (fresh : Nat) : Nat × (DataDir → Option Nat) :=
+  match roots dir with
+  | some r => (r, roots)
+  | none => (fresh, fun d => if d = dir then some fresh else roots d)
 
 end CaddyModel.C14
